@@ -198,7 +198,9 @@ func sameTree(a, b []Ent) bool {
 
 var pkgName, targetName = "pkg", "tgt"
 
-func newTarget() *core.BuildTarget { return core.NewBuildTarget(core.NewBuildLabel(pkgName, targetName)) }
+func newTarget() *core.BuildTarget {
+	return core.NewBuildTarget(core.NewBuildLabel(pkgName, targetName))
+}
 
 func newCache(dir string, compress bool) core.Cache {
 	config := core.DefaultConfiguration()
@@ -740,7 +742,7 @@ type RoundTrip struct {
 type CrashCase struct {
 	Kind     string    `json:"kind"` // crash
 	Spec     ChildSpec `json:"spec"`
-	When     int       `json:"when"`   // index of the killed syscall, counted from the first syscall of the store
+	When     int       `json:"when"`    // index of the killed syscall, counted from the first syscall of the store
 	Syscall  string    `json:"syscall"` // the call that was about to run
 	Prior    []Ent     `json:"prior"`
 	Post     []Ent     `json:"post"`
@@ -874,9 +876,9 @@ type crashJob struct {
 }
 
 type crashResult struct {
-	cases  []CrashCase
-	terms  []string
-	err    string
+	cases   []CrashCase
+	terms   []string
+	err     string
 	first   int
 	last    int
 	killed  int
@@ -1271,7 +1273,7 @@ func main() {
 		if only != "" && only != "race" {
 			return
 		}
-		runRace(c, c.Rng.Fork(), false, treeA, 1, 50)   // first store of an absent key
+		runRace(c, c.Rng.Fork(), false, treeA, 1, 50) // first store of an absent key
 		runRace(c, c.Rng.Fork(), true, treeA, 1, 50)
 		wide := dir("w")
 		for i := 0; i < 24; i++ {
